@@ -6,7 +6,7 @@ use ic_btc_interface::Flag;
 use serde_json::json;
 use std::collections::HashSet;
 use watchdog::verif_hooks as wd;
-use watchdog::verif_hooks::{BlockInfo, Canister, Config, HeightStatus};
+use watchdog::verif_hooks::{BlockInfo, Config, HeightStatus};
 
 #[derive(Clone, Copy, Debug, PartialEq, Eq)]
 pub enum Decision {
